@@ -877,7 +877,8 @@ fn replay_tour(
                             if a_loc != end_loc {
                                 rep.issue("C01", "shift-end-location", format!("tour {ti} ends at {a_loc}, shift end is {end_loc}"));
                             }
-                            rep.rule("shift-end", (latest as f64 - t) <= 1.0);
+                            // binding: the tour ends in the last tenth of the time it had
+                            rep.rule("shift-end", (latest as f64 - t) <= ((latest as f64 - t_dep) * 0.1).max(1.0));
                             if t > latest as f64 + tol {
                                 rep.issue("C01", "shift-end", format!("tour {ti} arrives {} after end.latest {}", fmt_t(t), crate::timeutil::fmt_time(latest)));
                             }
@@ -1319,14 +1320,14 @@ fn replay_tour(
 
     // ---------------- tour level rules
     if let Some(md) = veh.max_distance {
-        rep.rule("max-distance", md - dist as f64 <= 1.0);
+        rep.rule("max-distance", md - dist as f64 <= (md * 0.1).max(1.0)); // binding: within a tenth of the limit
         if dist as f64 > md + 1e-9 {
             rep.issue("C01", "max-distance", format!("tour {ti}: distance {dist} > maxDistance {md}"));
         }
     }
     if let Some(md) = veh.max_duration {
         let dur = t_end - t_dep;
-        rep.rule("max-duration", md - dur <= 1.0);
+        rep.rule("max-duration", md - dur <= (md * 0.1).max(1.0));
         if dur > md + tol + 1e-9 {
             rep.issue("C01", "max-duration", format!("tour {ti}: duration {dur} > maxDuration {md}"));
         }
